@@ -69,9 +69,7 @@ def run(c):
         return ("DecodeDispatch" if e["op"] == "Dec" else "EncodeDispatch", t[2], what, dict(case=cases[idx], observed=e))
 
     def confirm(idx, t):
-        e0 = json.loads(events[idx])
-        strip = lambda e: {k: v for k, v in e.items() if k != "alloc"}
-        return confirm_case(c, drv, cases[idx], lambda e: strip(e) == strip(e0))
+        return confirm_by_tlc(c, drv, cases[idx], "Trace_C05", t[2])
     c.triage(mism, classify, confirm)
     c.cov["notes_nil_body"] = sum(1 for _, t in mism if t[0] == "NOTE")
     c.cov["exhaustive"] = bool(thorough)
